@@ -149,6 +149,8 @@ def run(prop, tier, extra=None):
             for e in tr:
                 e["tid"] += 2 * 10**6
         traces += extra_tr
+        # the starter scheduler the documented way, all through the command line: `eudoxia init -s NAME`, `eudoxia run -i NAME`
+        traces += driver_sched.gen_special("cli", 6 if tier == "quick" else 60, common.seed() + 809, 4 * 10**6)
         # deterministic probes of the listed known finding D6 (priority-pool ignores single-operator mode)
         traces += [driver_sched.run_scenario(1000 + i, 10**6 + i, "priority-pool", "single") for i in range(4)]
     mon, mon2, owners = validate(traces, rep, prop, step=(prop == "C08"))
@@ -185,7 +187,7 @@ def replay(prop, path):
         mon, mon2, owners = validate([tr], rep, prop, step=(prop == "C08"))
         print(f"replay: {len(mon.viols)} contract clause(s) fired, by owner {dict(owners)}")
         return 1 if rep.violations else 0
-    special = {"flood": driver_sched.flood_run, "crowd": driver_sched.crowd_run, "long": driver_sched.long_run}.get(rp.get("flavour"))
+    special = {"flood": driver_sched.flood_run, "crowd": driver_sched.crowd_run, "long": driver_sched.long_run, "cli-starter": driver_sched.starter_cli_run}.get(rp.get("flavour"))
     tr = special(rp["seed"], 0) if special else driver_sched.run_scenario(rp["seed"], 0, rp["policy"], rp.get("flavour") or "mixed")
     mon, mon2, owners = validate([tr], rep, prop, step=(prop == "C08"))
     print(f"replay: {len(mon.viols)} contract clause(s) fired, by owner {dict(owners)}")
